@@ -209,6 +209,7 @@ TreeSet_isdisjoint(BTree* self, PyObject* other)
         }
         contained = BTree_contains(self, v);
         if (contained == -1) {
+            Py_DECREF(v);
             goto err;
         }
         if (contained == 1) {
